@@ -6,6 +6,7 @@ import (
 	"fmt"
 	"io"
 	"net"
+	"os"
 	"runtime"
 	"sync"
 	"sync/atomic"
@@ -54,6 +55,8 @@ type caseDesc struct {
 	Refusal   bool   `json:"refused_request_meanwhile"` // a request for an unknown channel is refused after the first write
 	Active    bool   `json:"others_active"`
 	Key       uint64 `json:"key"`
+	// PipeDebug: the documented-in-code environment switch SOCKETACE_PIPE_DEBUG=1 (copy loops that also log the data)
+	PipeDebug bool `json:"SOCKETACE_PIPE_DEBUG,omitempty"`
 }
 
 var boundaries = []int{0, 1, 2, 4095, 4096, 4097, 32639, 32640, 32641, 32767, 32768, 32769, 65535, 65536, 65537}
@@ -150,6 +153,10 @@ func readToEOF(c net.Conn, d time.Duration) (data []byte, ended bool, endErr err
 }
 
 func runCase(d caseDesc) (problem string, inconclusive bool) {
+	if d.PipeDebug {
+		os.Setenv("SOCKETACE_PIPE_DEBUG", "1")
+		defer os.Unsetenv("SOCKETACE_PIPE_DEBUG")
+	}
 	var c config
 	for _, x := range configs {
 		if x.name == d.Config {
@@ -390,6 +397,7 @@ func TestOrderlyClose(t *testing.T) {
 			d.RaceUs = rapid.IntRange(0, 400).Draw(rt, "raceUs")
 		}
 		d.Others = rapid.IntRange(0, 2).Draw(rt, "others")
+		d.PipeDebug = c.carrier != vlib.CarDNS && rapid.IntRange(0, 5).Draw(rt, "pipeDebug") == 0
 		d.Refusal = len(d.Parts) > 0 && rapid.IntRange(0, 2).Draw(rt, "refusal") == 0
 		d.Active = d.Others > 0 && rapid.Bool().Draw(rt, "active")
 		d.Key = uint64(rapid.IntRange(1, 1<<30).Draw(rt, "key"))
@@ -399,7 +407,7 @@ func TestOrderlyClose(t *testing.T) {
 			vlib.Rec.Inconclusive("bind")
 			return
 		}
-		labels := []string{"cfg:" + c.name, "closer:" + d.Closer, fmt.Sprintf("others:%d", d.Others), fmt.Sprintf("half-close:%v", d.HalfClose)}
+		labels := []string{"cfg:" + c.name, "closer:" + d.Closer, fmt.Sprintf("others:%d", d.Others), fmt.Sprintf("half-close:%v", d.HalfClose), fmt.Sprintf("pipe-debug:%v", d.PipeDebug)}
 		if d.Race {
 			labels = append(labels, "race")
 		}
